@@ -116,6 +116,8 @@ def post(ctx, c, rep):
 
 def run(ctx):
     c01.run(ctx, focus='C03', post=post, n_quick=150, n_thorough=4000, force={'duppvd': True})
+    # the same for images that were opened and edited again (several descriptor copies, moved root, parsed tables)
+    c01.run(ctx, focus='C03', post=post, n_quick=60, n_thorough=1500, force={'duppvd': True}, reopen_every=6)
 
 
 def replay(ctx, obj):
